@@ -23,6 +23,9 @@ def main(ids):
         meta = json.load(open(f"{d}/meta.json"))
         prop = meta.get("property") or sid.split("-")[0]
         wt = f"/tmp/confirm_{sid}"
+        if meta.get("obsolete"):
+            print(f"{sid}: obsolete ({str(meta['obsolete'])[:80]})")
+            continue
         if CHECK_ONLY and meta.get("confirmed", {}).get("ok"):
             check_only(sid, d, meta, prop)
             continue
